@@ -28,7 +28,7 @@ let tab (s : state) : state =
 
 let tabc (c : cstate) : cstate =
   let a = Array.init maxt (fun i -> c.pend (nat_of_int i)) in
-  { cs = tab c.cs; pend = (fun t -> let i = int_of_nat t in if i < maxt then a.(i) else None); pendres = c.pendres }
+  { cs = tab c.cs; pend = (fun t -> let i = int_of_nat t in if i < maxt then a.(i) else None); pendres = c.pendres; copt = c.copt }
 
 let code_text = function
   | 1 -> "event is not an enabled transition of the model"
@@ -48,6 +48,11 @@ let code_text = function
   | 15 | 16 -> "quitAckWaitChildren differs from the model"
   | 17 -> "result handler of the search ran outside iterativeDeepening"
   | 18 -> "a helper result was accepted although its jobId is not the current one (or rejected although it is)"
+  | 19 -> "option hand-shake: the engine thread went on (read search / cleared it) before setOptions() finished, or a search was set up while optionsSetFinished is false in the model"
+  | 30 -> "C10_options_applied_before_ready: the UCI thread got past waitOptionsSet (readyok / go set-up) although an option is still pending or being applied"
+  | 31 -> "setOptions took pendingOptions outside the engine thread's setOptions() window"
+  | 32 -> "pendingOptions emptiness differs from the model"
+  | 33 -> "option applied (params.set) without having been taken"
   | 20 -> "worker tree changed while the protocol is not quiescent"
   | 21 -> "worker tree is not the shape createWorkers builds (parent >= child)"
   | 22 -> "event by a thread on another thread's mailbox/notifier"
@@ -72,7 +77,17 @@ let thread_str (s : state) t =
 
 exception Stop of string
 
+let has_h5b file =
+  let ic = open_in file in
+  let found = ref false in
+  (try while not !found do
+     let l = input_line ic in
+     (match String.split_on_char ' ' l with _ :: "OPTTAKE" :: _ -> found := true | _ -> ())
+   done with End_of_file -> ());
+  close_in ic; !found
+
 let validate file =
+  let h5b = has_h5b file in
   let ic = open_in file in
   let par = Array.make maxt (-2) in          (* current configuration *)
   let alive = Array.make maxt false in
@@ -81,7 +96,7 @@ let validate file =
   let dying = Array.make maxt false in
   let dirty = ref false in
   let n = ref 0 in
-  let c = ref cinit in
+  let c = ref (cinit h5b) in
   let uci = nat_of_int (maxt + 1) in
   let parent_fn () = let p = Array.copy par in
     fun t -> let i = int_of_nat t in if i >= 1 && i < maxt && p.(i) >= 0 then Some (nat_of_int p.(i)) else None in
@@ -135,8 +150,11 @@ let validate file =
         | "TSTART" -> if a >= 1 && a < maxt then (started.(a) <- true; newpar.(a) <- b; dirty := true) else bad 23 line t
         | "TERM" -> if a >= 1 && a < maxt then (dying.(a) <- true; dirty := true)
         | "TJOIN" -> ()
-        | "ACQ" | "REL" | "RDSEARCHU" | "RDPARAMS"
-        | "SETOPT" | "OPTTAKE" | "RDFIN" | "WOPT" | "ROPT" | "WTT" | "RTT" -> decr nevents   (* C09 lock / access events: not part of the C10 replay *)
+        | "ACQ" | "REL" | "RDSEARCHU" | "RDPARAMS" | "ROPT" | "WTT" | "RTT" -> decr nevents
+        | "SETOPT" -> feed line t EvSetOpt
+        | "OPTTAKE" -> feed line t (EvOptTake (a <> 0))
+        | "WOPT" -> feed line t EvWOpt
+        | "RDFIN" -> feed line t EvRdFin   (* C09 lock / access events: not part of the C10 replay *)
         | "TEXIT" -> if a = 0 then finished := true
         | _ when skip -> ()
         | "N" ->
@@ -172,8 +190,8 @@ let validate file =
   done;
   let s = !c.cs in
   let idle = (match (s.th O).pc with PWait KTop | MRdQuit | MRdSearch | PExit -> true | _ -> false) in
-  Printf.printf "OK events=%d transitions=%d searches=%d bestmoves=%d reconfigs=%d maxN=%d exited=%b idle_at_end=%b\n"
-    !nevents !ntrans (int_of_nat s.sid) (int_of_nat s.nbest) !nreconf !maxn !finished idle
+  Printf.printf "OK events=%d transitions=%d searches=%d bestmoves=%d reconfigs=%d maxN=%d exited=%b idle_at_end=%b options=%b\n"
+    !nevents !ntrans (int_of_nat s.sid) (int_of_nat s.nbest) !nreconf !maxn !finished idle h5b
 
 (* ---- random walk of the LTS with the trace checker's quiescence test as a monitor ---- *)
 let simulate seed n steps rand =
